@@ -97,3 +97,7 @@
         std::mem::forget(r);
         std::mem::forget(pre);
     }
+
+    // (An attempt to put the entry guard of the async Reader::read under contract - "with a completed fragment waiting, read
+    //  returns at once without reading or assembling" - did not finish in 600 s: CBMC unrolls the read loop behind the guard.
+    //  The guard stays a stated caller precondition of Assembler::assemble.)
